@@ -8,7 +8,7 @@
      RoundsBounded   the loop needs at most N \div 2 + 2 calls of the partitioning step   (so it terminates)
      NoCrash         pc never becomes "crashed"  (holds iff StackLimit is Unbounded or large enough)
      BfsComplete     the final relabelling assigns exactly N labels (no IndexError / AssertionError)      *)
-EXTENDS MolGraph, Refine, FinalLabels
+EXTENDS MolGraph, Refine, FinalLabels, Serialize
 CONSTANTS N, StackLimit
 Unbounded == -1
 VARIABLES G, part, depth, pc, bfs
@@ -38,6 +38,22 @@ SSpec == SInit /\ [][SNext]_svars
 RoundsBounded == depth <= (N \div 2) + 2
 NoCrash == pc # "crashed"
 BfsComplete == pc = "done" => /\ IsPerm(bfs.final, N) /\ FinalKeepsClasses([G EXCEPT !.part = part], bfs.final)
+\* ---- the step machine agrees with the functional definitions, and its steps are well-behaved
+K0 == [G EXCEPT !.part = part]
+\* every round refines the previous partition and keeps the order of the classes (action property)
+RoundsRefine == [][(pc = "refine" /\ pc' \in {"refine", "bfs"}) => Refines(part', part)]_svars
+\* labels are handed out once, inside the atom's own class, and only to explored atoms
+BfsWellBehaved ==
+  (pc = "bfs" /\ bfs # <<>>) =>
+     /\ \A a \in Atoms(G) : (bfs.final[a] # 0) <=> bfs.explored[a]
+     /\ \A a, b \in Atoms(G) : (a # b /\ bfs.final[a] # 0) => bfs.final[a] # bfs.final[b]
+     /\ \A a \in Atoms(G) : bfs.final[a] # 0 => part[bfs.final[a]] = part[a]
+     /\ \A c \in Classes(K0) : Len(bfs.avail[c]) + Cardinality({a \in Atoms(G) : part[a] = c /\ bfs.explored[a]}) = Cardinality({a \in Atoms(G) : part[a] = c})
+     /\ Len(bfs.queue) <= 2 * NumEdges(G) + 1
+StepMachineIsTheFunction ==
+  pc = "done" => /\ part = FinalPartition(G) /\ depth = Rounds(G) + 1
+                 /\ bfs.final = FinalLabelMap(K0)
+                 /\ WriteTucan(SortedByZ(TLCEval(Apply(K0, bfs.final)))) = SerializeMolecule(K0)
 \* the refinement depth really grows with the size of a chain: a path of N >= 3 atoms needs (N+1) \div 2 partitioning calls
 PathNeeds == LET P == Mk({<<a, a + 1>> : a \in 1..(N - 1)}) IN N < 3 \/ Rounds(P) + 1 = (N + 1) \div 2
 ASSUME PathNeeds
